@@ -310,7 +310,7 @@ func TestC17_Rapid(t *testing.T) {
 	defer finish(t, rec)
 	runRapid(t, pick(30000, 200000), 17, func(rt *rapid.T) {
 		n := rapid.IntRange(1, 12).Draw(rt, "n")
-		if rapid.IntRange(0, 29).Draw(rt, "long") == 0 {
+		if rapid.IntRange(0, pick(79, 29)).Draw(rt, "long") == 0 {
 			n = rapid.IntRange(100, 320).Draw(rt, "longn") // long histories: hundreds of registrations
 		}
 		var ops []c17Op
